@@ -348,6 +348,14 @@ def c09(run, drv, rng, ncases, all_k):
                 run.count("inversions_with_direction_iteration")
             base = evaluate(spec, wdir, with_inv)
             klist = list(range(nd)) if all_k else sorted(set([0, 1, nd - 1] + [rng.randrange(nd) for _ in range(2)]))
+            inv_ks = set(klist if all_k and iterate else klist[:2])
+            if iterate and with_inv and "u10dir" in base and base["u10dir"][0] == base["u10dir"][0]:
+                # aim rotations at the seam: the iterated wind direction of the first point lands just below / above 0 = 360
+                kk = int(round((360.0 - float(base["u10dir"][0])) / binw)) % nd
+                seam = [kk, (kk - 1) % nd, (kk + 1) % nd]
+                klist = sorted(set(klist + seam))
+                inv_ks |= set(seam)
+                run.count("rotations_aimed_at_the_seam", len(seam))
             for k in klist + ["mirror"]:
                 run.case("rotation" if k != "mirror" else "mirror", key=(case, k))
                 if k == "mirror":
@@ -361,7 +369,7 @@ def c09(run, drv, rng, ncases, all_k):
                     wr = wdir + k * binw
                     back = lambda F, k=k: np.roll(F, -k, axis=2)
                     ang = lambda a, k=k: a - k * binw
-                got = evaluate(wp.with_density(spec, Er), wr, with_inv and (k == "mirror" or k in klist[:2]))
+                got = evaluate(wp.with_density(spec, Er), wr, with_inv and (k == "mirror" or k in inv_ks))
                 what = dict(info, transform=k)
                 if not wp.close(back(got["S"]), base["S"], 1e-9):
                     run.violation("the wind-input field does not rotate / mirror with the spectrum and wind", what)
@@ -390,6 +398,10 @@ def c09(run, drv, rng, ncases, all_k):
                 if "u10" in got and "u10" in base:
                     ub, ug = base["u10"], got["u10"]
                     both = ~np.isnan(ub) & ~np.isnan(ug)
+                    lost = ~np.isnan(ub) & (ub > 0) & np.isnan(ug) & (base["Db"] < -1e-6)     # (the recorded finding lives below 1e-6)
+                    if iterate and np.any(lost):
+                        run.violation("a sea that gets a wind estimate gets none after a joint rotation / mirroring (direction iteration)",
+                                      dict(what, base=ub.tolist(), got=ug.tolist(), base_dir=base["u10dir"].tolist(), got_dir=got["u10dir"].tolist()))
                     # (iterated: the 1-degree and 10-degree switches of the direction update can fall either way on rounding)
                     if not np.allclose(ug[both], ub[both], rtol=0, atol=0.1 if iterate else 0.03):
                         run.violation("the estimated wind speed changes under a joint rotation / mirroring", dict(what, base=ub.tolist(), got=ug.tolist()))
